@@ -1,5 +1,5 @@
 (* C15 property theorems: statements + `exact lemma` only. *)
-From CJ Require Import Common.Base C15.Model C15.Proofs C15.ModelName C15.ProofsName C15.ModelObf C15.ProofsObf C15.ModelAny C15.ProofsAny.
+From CJ Require Import Common.Base C15.Model C15.Proofs C15.ModelName C15.ProofsName C15.ModelObf C15.ProofsObf C15.ModelAny C15.ProofsAny C15.ModelDns C15.ProofsDns.
 
 Theorem C15_request_format_roundtrip :
   forall p e, add_request_format p = Some e -> remove_request_format e = Some p.
@@ -175,3 +175,30 @@ Theorem C15_anypb_wrong_url_rejected :
     unmarshal_anypb_to mtype msg url_of unmarshal (Some a) dst = Err EWrongType.
 Proof. exact anypb_wrong_url_rejected. Qed.
 Print Assumptions C15_anypb_wrong_url_rejected.
+
+(* ---- DNS message wire format with name compression ----
+   The builder (after /repo 3cc5880) emits a pointer only to a cached suffix whose pointer chain
+   stays within the reader's limit of 10, so the full statement holds for every message of
+   NewName-validated names that the encoder accepts. *)
+Definition C15_dns_full_statement : Prop :=
+  forall m b, names_ok m -> wire_message m = Ok b -> read_message b = Ok m.
+
+Theorem C15_dns_message_roundtrip : C15_dns_full_statement.
+Proof. exact dns_message_roundtrip. Qed.
+Print Assumptions C15_dns_message_roundtrip.
+
+Theorem C15_dns_message_accepts : forall m, names_ok m -> msg_fits m -> exists b, wire_message m = Ok b.
+Proof. exact wire_message_accepts. Qed.
+Print Assumptions C15_dns_message_accepts.
+
+Theorem C15_dns_message_rejects : forall m, names_ok m -> ~ msg_fits m -> wire_message m = Err EOverflow.
+Proof. exact wire_message_rejects. Qed.
+Print Assumptions C15_dns_message_rejects.
+
+(* the invariant behind the round trip: a name written at the end of the buffer by a builder whose
+   cache entries all decode is read back from there, whatever is appended later *)
+Theorem C15_dns_write_name_spec :
+  forall w c n bs c', cache_inv w c -> write_name c (blen w) n = Some (bs, c') -> name_ok n = true ->
+    cache_inv (w ++ bs) c' /\ forall post, read_name ((w ++ bs) ++ post) (blen w) = Ok (n, blen (w ++ bs)).
+Proof. exact write_name_spec. Qed.
+Print Assumptions C15_dns_write_name_spec.
